@@ -485,8 +485,16 @@ def retry_loop_facts(prog: Program, outer: FuncInfo, w: FuncInfo, func_ret: Froz
                 FUNC[n.id] = c
             d = dotted(c.func)
             if d == 'next' and c.args:
-                if isinstance(n.ast, ast.Assign) and len(n.ast.targets) == 1 and isinstance(n.ast.targets[0], ast.Name):
-                    NEXT[n.id] = n.ast.targets[0].id
+                tgt_name = None
+                if isinstance(n.ast, ast.Assign) and len(n.ast.targets) == 1 and isinstance(n.ast.targets[0], ast.Name) and n.ast.value is c:
+                    tgt_name = n.ast.targets[0].id
+                else:
+                    for frag in node_exprs(n):
+                        for x in walk_no_defs(frag):
+                            if isinstance(x, ast.NamedExpr) and x.value is c:
+                                tgt_name = x.target.id
+                if tgt_name is not None:
+                    NEXT[n.id] = tgt_name
                     if len(c.args) != 2 or not (isinstance(c.args[1], ast.Constant) and c.args[1].value is None):
                         problems.append(('RETRY-BOUND', 'next(delays) without a None default', n.line,
                                          f'`{norm(c)}`: exhaustion of the backoff must be observable as None (StopIteration would escape)'))
@@ -526,7 +534,7 @@ def retry_loop_facts(prog: Program, outer: FuncInfo, w: FuncInfo, func_ret: Froz
     for e in go_edges:
         var = classify_cond(prog, w, e.src.ast).subject
         nx = [cfg.nodes[nid] for nid, v in NEXT.items() if v == var]
-        if not any(e.src.id in cfg.reachable(n_, avoid_nodes=[fnode]) for n_ in nx):
+        if not any(e.src is n_ or e.src.id in cfg.reachable(n_, avoid_nodes=[fnode]) for n_ in nx):
             problems.append(('RETRY-BOUND', 'stale delay tested', e.src.line, f'`{norm(e.src.ast)}` is not preceded by a fresh next(delays) in the same attempt'))
     # delays iterator created once, before the loop
     dl = [n for n in cfg.stmt_nodes() if isinstance(n.ast, ast.Assign) and isinstance(n.ast.value, ast.Call) and
@@ -588,7 +596,8 @@ def retry_loop_facts(prog: Program, outer: FuncInfo, w: FuncInfo, func_ret: Froz
                 conds.add('is_error')
             elif ckd.kind == 'truthy' and ckd.subject == f'{strat_param}.codes' and pos != ckd.negated:
                 conds.add('codes-set')
-            elif isinstance(g.src.ast, ast.Compare) and isinstance(g.src.ast.ops[0], ast.In) and pos and \
+            elif isinstance(g.src.ast, ast.Compare) and isinstance(g.src.ast.ops[0], (ast.In, ast.NotIn)) and \
+                    pos == isinstance(g.src.ast.ops[0], ast.In) and \
                     dotted(g.src.ast.comparators[0]) == f'{strat_param}.codes' and norm(g.src.ast.left).endswith('.code'):
                 conds.add('code-in-codes')
             elif ckd.kind == 'is-none' and pos == ckd.negated:
